@@ -136,9 +136,11 @@ CLAIMED = {
         text=("Relational obligations on the real code: identical symbolic operands pushed through tensordot under fuse_to_matrix / "
               "fuse_contracted / no_fusion give the same legs, charge, block set AND storage layout; lazily transposed vs materialised operands "
               "give the same observable result for tensordot, conj, add_leg, transpose, hard fusion and unfuse_legs; consume_transpose preserves the logical "
-              "view; meta-fusion followed by fuse_meta_to_hard equals direct hard fusion. Discharged for all charges/dims at each shape."),
+              "view; meta-fusion followed by fuse_meta_to_hard equals direct hard fusion. Discharged for all charges/dims at each shape. "
+              "contract_with_unroll: slicing a contracted or an open index (per sector, inside sectors, uniform sizes, two indices) leaves the dense "
+              "value equal to the plain contraction and to numpy (concrete three-tensor chain per symmetry, symbolic data)."),
         design_ref='DESIGN.md §5 C14',
-        note=TRUST + "Equality of dense VALUES across policies is kernel-level (checked natively on replay only). contract_with_unroll/oe_blocksparse not covered.",
+        note=TRUST + "Equality of dense VALUES across policies is proved in C01 part B. Path search (opt_einsum) and checkpointing of contract_with_unroll are outside.",
         technique='relational symbolic execution of the real code paths selected by the configuration knobs; z3',
     ),
     'C04': dict(
